@@ -230,7 +230,9 @@ class Lagrange(Interpolator, StringSerializable):
             w_j[n, :grid_sizes[var]] = state.weights[var]
 
         diff = x_arr[..., np.newaxis] - x_j
-        div_zero_idx = np.isclose(diff, 0, rtol=1e-4, atol=1e-8)
+        span = np.nanmax(x_j, axis=-1) - np.nanmin(x_j, axis=-1)  # node spread per dim sets the length scale
+        span[span == 0] = 1.0
+        div_zero_idx = np.abs(diff) <= 1e-8 * span[:, np.newaxis]
         check_interp_pts = np.sum(div_zero_idx) > 0     # whether we are evaluating directly on some interp pts
         diff[div_zero_idx] = 1
         quotient = w_j / diff                           # (..., xdim, Nx)
@@ -285,7 +287,9 @@ class Lagrange(Interpolator, StringSerializable):
 
         # Compute values ahead of time that will be needed for the gradient
         diff = x_arr[..., np.newaxis] - x_j
-        div_zero_idx = np.isclose(diff, 0, rtol=1e-4, atol=1e-8)
+        span = np.nanmax(x_j, axis=-1) - np.nanmin(x_j, axis=-1)  # node spread per dim sets the length scale
+        span[span == 0] = 1.0
+        div_zero_idx = np.abs(diff) <= 1e-8 * span[:, np.newaxis]
         check_interp_pts = np.sum(div_zero_idx) > 0
         diff[div_zero_idx] = 1
         quotient = w_j / diff                               # (..., xdim, Nx)
@@ -361,7 +365,9 @@ class Lagrange(Interpolator, StringSerializable):
 
         # Compute values ahead of time that will be needed for the gradient
         diff = x_arr[..., np.newaxis] - x_j
-        div_zero_idx = np.isclose(diff, 0, rtol=1e-4, atol=1e-8)
+        span = np.nanmax(x_j, axis=-1) - np.nanmin(x_j, axis=-1)  # node spread per dim sets the length scale
+        span[span == 0] = 1.0
+        div_zero_idx = np.abs(diff) <= 1e-8 * span[:, np.newaxis]
         check_interp_pts = np.sum(div_zero_idx) > 0
         diff[div_zero_idx] = 1
         quotient = w_j / diff                                       # (..., xdim, Nx)
